@@ -3,6 +3,8 @@
 import glob, json, os, re
 rows = []
 for d in sorted(glob.glob("/verif/seeded/C??-*")):
+    if not os.path.exists(d + "/meta.json"):
+        continue        # (evaluation of this change is still running)
     m = json.load(open(d + "/meta.json"))
     notes = open(d + "/notes.md").read() if os.path.exists(d + "/notes.md") else ""
     first = ""
